@@ -527,7 +527,7 @@ def sweep(targets, n, seed, sidecar):
                 continue
             # frame
             changed = [pn for (pn, _), a, s0 in zip(c.params, args, snaps)
-                       if s0 is not None and pn not in c.modifies and pn != 'self' and snapshot(a) != s0]
+                       if s0 is not None and pn not in c.modifies and snapshot(a) != s0]
             if target.endswith('__init__'):
                 changed = []
             if changed:
